@@ -348,6 +348,7 @@ theorem compile_trans {n : Ast} {prog : Prog} (h : compile n = .ok prog) (ht : T
   · exact compileWith_T L h ht
   · exact compileWith_T L h ht
   · exact compileGlobal_T L h
+  · exact compileNonlocal_T L h
   · exact compileName_T L (hname hk) h
   · exact compileNamedExpr_T L h ht
   · simp only [pure_ok_iff] at h; subst h
